@@ -30,6 +30,8 @@ site: http://bugseng.com/products/ppl/ . */
 #include "Grid_Generator_System_inlines.hh"
 #include <algorithm>
 #include <deque>
+#include <sstream>
+#include <stdexcept>
 
 namespace Parma_Polyhedra_Library {
 
@@ -231,6 +233,14 @@ Partially_Reduced_Product<D1, D2, R>
            Coefficient& sup_n,
            Coefficient& sup_d,
            bool& maximum) const {
+  // Dimension-compatibility check (to be done also on an empty product).
+  if (space_dimension() < expr.space_dimension()) {
+    std::ostringstream s;
+    s << "PPL::Partially_Reduced_Product<D1, D2, R>::maximize(e, ...):\n"
+      << "this->space_dimension() == " << space_dimension()
+      << ", e.space_dimension() == " << expr.space_dimension() << ".";
+    throw std::invalid_argument(s.str());
+  }
   reduce();
 
   if (is_empty()) {
@@ -284,6 +294,14 @@ Partially_Reduced_Product<D1, D2, R>
            Coefficient& inf_n,
            Coefficient& inf_d,
            bool& minimum) const {
+  // Dimension-compatibility check (to be done also on an empty product).
+  if (space_dimension() < expr.space_dimension()) {
+    std::ostringstream s;
+    s << "PPL::Partially_Reduced_Product<D1, D2, R>::minimize(e, ...):\n"
+      << "this->space_dimension() == " << space_dimension()
+      << ", e.space_dimension() == " << expr.space_dimension() << ".";
+    throw std::invalid_argument(s.str());
+  }
   reduce();
 
   if (is_empty()) {
@@ -339,6 +357,14 @@ Partially_Reduced_Product<D1, D2, R>
            Coefficient& sup_d,
            bool& maximum,
            Generator& g) const {
+  // Dimension-compatibility check (to be done also on an empty product).
+  if (space_dimension() < expr.space_dimension()) {
+    std::ostringstream s;
+    s << "PPL::Partially_Reduced_Product<D1, D2, R>::maximize(e, ...):\n"
+      << "this->space_dimension() == " << space_dimension()
+      << ", e.space_dimension() == " << expr.space_dimension() << ".";
+    throw std::invalid_argument(s.str());
+  }
   reduce();
 
   if (is_empty()) {
@@ -400,6 +426,14 @@ Partially_Reduced_Product<D1, D2, R>
            Coefficient& inf_d,
            bool& minimum,
            Generator& g) const {
+  // Dimension-compatibility check (to be done also on an empty product).
+  if (space_dimension() < expr.space_dimension()) {
+    std::ostringstream s;
+    s << "PPL::Partially_Reduced_Product<D1, D2, R>::minimize(e, ...):\n"
+      << "this->space_dimension() == " << space_dimension()
+      << ", e.space_dimension() == " << expr.space_dimension() << ".";
+    throw std::invalid_argument(s.str());
+  }
   reduce();
 
   if (is_empty()) {
